@@ -21,6 +21,25 @@ class C01(Prop):
     'DK.Props.C01all': ['DK.C01all.leaf_grad', 'DK.C01all.line_integral_of_grad', 'DK.C01all.idevice2_line_integral'],
   }
   bridge = ['DK.Bridge.hlq_cost', 'DK.Bridge.hlq_deriv', 'DK.Bridge.abc_cost', 'DK.Bridge.abc_deriv', 'DK.Bridge.abc_q']
+  bridge_vec = ['DK.BridgeVec.Device_cost', 'DK.BridgeVec.Device_deriv', 'DK.BridgeVec.CDevice_cost', 'DK.BridgeVec.CDevice_deriv',
+                'DK.BridgeVec.IDevice2_cost', 'DK.BridgeVec.IDevice2_deriv', 'DK.BridgeVec.IDevice_cost',
+                'DK.BridgeVec.IDevice_deriv', 'DK.BridgeVec.HLQuadraticCost_call', 'DK.BridgeVec.HLQuadraticCost_deriv',
+                'DK.BridgeVec.ABCCost_call', 'DK.BridgeVec.ABCCost_deriv', 'DK.BridgeVec.SDevice_flip_cost_at',
+                'DK.BridgeVec.SDevice_deep_damage_at', 'DK.BridgeVec.SDevice_deep_damage_at_deriv',
+                'DK.BridgeVec.SDevice_charge_costs', 'DK.BridgeVec.SDevice_charge_costs_deriv', 'DK.BridgeVec.SDevice_cost',
+                'DK.BridgeVec.SDevice_deriv', 'DK.BridgeVec.TDevice_costv_t', 'DK.BridgeVec.TDevice_deriv_t',
+                'DK.BridgeVec.TDevice_cost', 'DK.BridgeVec.TDevice_deriv', 'DK.BridgeVec.NullFunction_call',
+                'DK.BridgeVec.NullFunction_deriv', 'DK.BridgeVec.ReflectedFunction_call', 'DK.BridgeVec.ReflectedFunction_deriv',
+                'DK.BridgeVec.InnerSumFunction_call', 'DK.BridgeVec.InnerSumFunction_deriv',
+                'DK.BridgeVec.GDevice_cost',
+                'DK.BridgeVec.GDevice_deriv',
+                'DK.BridgeVec.CDevice2_cost',
+                'DK.BridgeVec.CDevice2_deriv',
+                'DK.BridgeVec.Poly2D_vector',
+                'DK.BridgeVec.Poly2D_call',
+                'DK.BridgeVec.Poly2DOffset_vector',
+                'DK.BridgeVec.Poly2DOffset_call']      # T1v: vector method bodies (vk/translate_vec.py, DK/Lemmas/BridgeVec.lean)
+  bridge = bridge + bridge_vec
   rule = ('random leaf of every shipped class x horizon n (1..8 quick, ..31 thorough) x bounds with zero-width slots x '
           'scalar/vector parameters x in-bounds flow (interior / on bounds / mixed) x scalar/vector price; non-trivial: n >= 2, '
           'a flow strictly inside a non-zero-width slot and a non-zero curve parameter; plus (oracle only) ADevice over the function classes outside the '
